@@ -468,6 +468,28 @@ def describe(r):
 
 
 def run_check(prop, tier, seed, replay=None):
+    """Extraction-based properties rewrite lean/RsassModel/Generated/*.lean from the running
+    code.  They serialise on one lock; a self-test run (VERIF_REPO) restores the files it
+    found, so that a mutated tree never leaves its tables behind for the registered checks."""
+    if not hasattr(prop, "extract"):
+        return _run_check(prop, tier, seed, replay)
+    gdir = os.path.join(LEAN, "RsassModel", "Generated")
+    with lock("generated"):
+        saved = {}
+        if REPO != "/repo" and os.path.isdir(gdir):
+            for fn in os.listdir(gdir):
+                if fn.endswith(".lean"):
+                    saved[fn] = open(os.path.join(gdir, fn), "rb").read()
+        try:
+            return _run_check(prop, tier, seed, replay)
+        finally:
+            for fn, data in saved.items():
+                path = os.path.join(gdir, fn)
+                if not os.path.exists(path) or open(path, "rb").read() != data:
+                    open(path, "wb").write(data)
+
+
+def _run_check(prop, tier, seed, replay=None):
     t0 = time.time()
     pid = prop.ID
     ctx = Ctx(pid, tier, seed)
